@@ -70,10 +70,11 @@ treevars == <<members, parent, atarget, atpath, backrefs>>
 vars == <<treevars, outcome, lastop, hist>>
 
 \* ---- derived notions (transcriptions of path / lookup) -------------------------------------------
-RECURSIVE PathOf(_, _)
-PathOf(o, fuel) ==       \* Object.path / Alias.path: parent's path + name (top-level: name alone)
-  IF fuel = 0 \/ parent[o] = Nil \/ parent[o] = COLL THEN <<NameOf[o]>>
-  ELSE PathOf(parent[o], fuel - 1) \o <<NameOf[o]>>
+RECURSIVE PathIn(_, _, _)
+PathIn(par, o, fuel) ==  \* Object.path / Alias.path: parent's path + name (top-level: name alone)
+  IF fuel = 0 \/ par[o] = Nil \/ par[o] = COLL THEN <<NameOf[o]>>
+  ELSE PathIn(par, par[o], fuel - 1) \o <<NameOf[o]>>
+PathOf(o, fuel) == PathIn(parent, o, fuel)
 Path(o) == PathOf(o, 5)
 
 IsMember(o) == o \in Obj /\ \E c \in Cont : members[c][NameOf[o]] = o
@@ -241,7 +242,9 @@ SetOp(producer) ==
              /\ Fail(op, "KeyError")
           \/ /\ w.err = "ok" /\ ~w.via /\ w.obj \in Cont
              /\ CanHold(w.obj, v) /\ ~Inside(v, w.obj, 4)
-             /\ (TopDown => ((w.obj = COLL \/ Attached(w.obj)) /\ (IF v \in Cont THEN \A n \in Names : members[v][n] = Nil ELSE TRUE)))
+             /\ (TopDown => ( /\ (w.obj = COLL \/ Attached(w.obj))
+                              /\ parent[v] = Nil        \* a fresh value (re-insertion of a removed object = a move: free domain)
+                              /\ (IF v \in Cont THEN \A n \in Names : members[v][n] = Nil ELSE TRUE)))
              /\ (w.obj = COLL => prefix = <<>>)
              /\ Place(op, w.obj, v, producer)
           \/ /\ WithLost /\ prefix # <<>> /\ w.err = "ok" /\ ~w.via /\ w.obj \in AliasObj
@@ -371,7 +374,10 @@ I5_FollowReplacement ==
            /\ \/ new # old
               \/ (c = COLL /\ lastop'.root = COLL /\ lastop'.key = <<n>> /\ KindOf[val] = "module")
            /\ Attached(a) /\ Final(a) = old /\ InRefs(backrefs[old], Path(a), a) )
-         => (atarget'[a] = new \/ a = new \/ Path(new) = Path(a))]_vars
+         \* (paths as they are AFTER the call: a value re-inserted with a stale parent pointer may have had,
+         \*  before the call, the very path of an alias sitting at its old location - the code then refuses
+         \*  the re-targeting although nothing would target itself; free domain only, recorded defect)
+         => (atarget'[a] = new \/ a = new \/ PathIn(parent', new, 5) = PathIn(parent', a, 5))]_vars
 \* members dictionaries hold objects under their own name only, and an object is a member of at most one container
 WellKeyed == \A c \in Cont, n \in Names : members[c][n] # Nil => NameOf[members[c][n]] = n
 \* (a stubs module that was merged away keeps its dict: only containers still in the tree count)
